@@ -4,6 +4,7 @@ import (
 	"encoding/json"
 	"fmt"
 	"sort"
+	"strings"
 )
 
 func jsonUnmarshal(b []byte, v interface{}) error { return json.Unmarshal(b, v) }
@@ -48,6 +49,28 @@ type Evidence struct {
 	workerS    float64
 	slowest    float64
 	seedsUsed  []uint64
+	sampleRefs []sampleRef
+}
+
+type sampleRef struct {
+	batch Batch
+	run   int
+}
+
+// expandSamples attaches the explicit programs to the first two samples (regenerated from the batch seed).
+func (e *Evidence) expandSamples(b *Build) {
+	for i, ref := range e.sampleRefs {
+		if i >= 2 || i >= len(e.samples) {
+			break
+		}
+		specs, err := genPrefix(b, ref.batch, ref.run)
+		if err != nil || len(specs) != ref.run+1 {
+			continue
+		}
+		if m, ok := e.samples[i].(map[string]interface{}); ok {
+			m["case"] = describeSpec(specs[ref.run])
+		}
+	}
 }
 
 func newEvidence(tier string, seed uint64, b *Build) *Evidence {
@@ -100,6 +123,7 @@ func (e *Evidence) addBatch(r *BatchResult) {
 			e.probeEx = append(e.probeEx, d.Probes...)
 		}
 		if len(e.samples) < 4 && d.Nontrivial && (len(e.samples) == 0 || d.Mode == "sfu") {
+			e.sampleRefs = append(e.sampleRefs, sampleRef{r.Batch, d.Run})
 			e.samples = append(e.samples, map[string]interface{}{
 				"batch_seed": r.Batch.Seed, "run": d.Run, "run_seed": d.Seed, "build": map[bool]string{true: "race", false: "plain"}[r.Batch.Race],
 				"cold": d.Cold, "mode": d.Mode, "tasks": d.Tasks, "operations": d.Ops, "library_operations": d.LibOps,
@@ -131,6 +155,77 @@ func (e *Evidence) addBatch(r *BatchResult) {
 }
 
 func (e *Evidence) finish(wall float64) { e.wall = wall }
+
+// describeSpec writes a run specification out in readable form: the objects, every task's program and the
+// scheduler configuration (an evidence sample must show what an explored case looks like).
+func describeSpec(s *RunSpec) map[string]interface{} {
+	kindOfSlot := map[int]string{}
+	var objs []string
+	for _, o := range s.Objects {
+		k := "?"
+		if o.List {
+			k = "[]Packet"
+		} else if o.Kind >= 0 && o.Kind < len(kindNames) {
+			k = kindNames[o.Kind]
+		}
+		kindOfSlot[o.Slot] = k
+		d := fmt.Sprintf("s%d = %s(seed %d)", o.Slot, k, o.Seed)
+		if len(o.Tweaks) > 0 {
+			d += fmt.Sprintf(" + %d single-leaf tweak(s)", len(o.Tweaks))
+		}
+		if o.Shared {
+			d += " shared"
+		}
+		objs = append(objs, d)
+	}
+	var tasks []string
+	for t, p := range s.Tasks {
+		var sb strings.Builder
+		fmt.Fprintf(&sb, "task %d:", t)
+		for _, op := range p {
+			name := "?"
+			if int(op.K) < len(opNames) {
+				name = opNames[op.K]
+			}
+			switch name {
+			case "send":
+				fmt.Fprintf(&sb, " send(s%d -> task %d #%d, delay %d);", op.A, op.Ch, op.Idx, op.N)
+			case "recv":
+				fmt.Fprintf(&sb, " s%d = recv(#%d);", op.B, op.Idx)
+			case "mutate":
+				if op.N == 1 {
+					fmt.Fprintf(&sb, " tweak(s%d);", op.A)
+				} else {
+					fmt.Fprintf(&sb, " overwrite(s%d);", op.A)
+				}
+			case "corrupt":
+				if op.N == 1 {
+					fmt.Fprintf(&sb, " s%d = repad(s%d);", op.B, op.A)
+				} else {
+					fmt.Fprintf(&sb, " s%d = damage(s%d);", op.B, op.A)
+				}
+			case "Unit", "NackHelpers":
+				fmt.Fprintf(&sb, " %s(%d);", name, op.N)
+			default:
+				arg := fmt.Sprintf("s%d", op.A)
+				if k, ok := kindOfSlot[op.A]; ok {
+					arg += ":" + k
+				}
+				if op.B >= 0 {
+					fmt.Fprintf(&sb, " s%d = %s(%s);", op.B, name, arg)
+				} else {
+					fmt.Fprintf(&sb, " %s(%s);", name, arg)
+				}
+			}
+		}
+		tasks = append(tasks, sb.String())
+	}
+	strat := []string{"random", "pct", "rr", "global", "stall", "seq", "replay"}
+	gran := []string{"stmt", "func", "op"}
+	sched := fmt.Sprintf("strategy=%s granularity=%s p=1/%d q=%d first=task %d gc_rate=%d prng=%d", strat[s.Sched.Strat%len(strat)], gran[s.Sched.Gran%len(gran)], s.Sched.P, s.Sched.Q, s.Sched.First, s.Sched.GCRate, s.Sched.Seed)
+	return map[string]interface{}{"mode": s.Mode, "cold": s.Cold, "reference_pass_before": s.PreRef, "objects": objs, "programs": tasks, "scheduler": sched,
+		"planned_transport_faults": s.Plan}
+}
 
 func (e *Evidence) write(path string) error {
 	perHour := 0.0
